@@ -356,6 +356,7 @@ func c07Targeted() []string {
 		"classes: {c: {class: c}}\nx.class: c",
 		"classes: {c: {x.class: c}}\ny.class: c",
 		"k: {shape: class}\nk.f: {_.j <- l}",
+		"vars: {a}\nx: \"pre ${a}\"",
 		"t: {shape: sql_table; id: int}\nt.id: {_.j -> l}",
 		"vars: {m: {p: q}; **: ${m}}\nx: ${m}",
 		"vars: {m: {p: q}}\n**.a: ${m}\nl: {...${m}}",
